@@ -8,6 +8,16 @@ from ibicus.debias import DeltaChange
 
 SENTINEL = -123456789
 
+class ProbeError(Exception):
+    """a user-defined exception class (not a subclass of the built-in error families)"""
+
+# the failure a user-defined debiaser raises is chosen by the marker value: failsafe must isolate any Exception
+EXC = {999: RuntimeError, 998: IndexError, 997: KeyError, 996: AssertionError, 995: ZeroDivisionError, 994: ProbeError, 993: TypeError, 992: ValueError}
+def _maybe_fail(marker):
+    e = EXC.get(int(marker)) if np.isfinite(marker) else None
+    if e is not None:
+        raise e("probe failure")
+
 @attrs.define(slots=False)
 class ProbeLS(Debiaser):
     """apply_location = cm_future + (sum obs - sum cm_hist); raises when obs[0] == 999; sleeps a
@@ -19,14 +29,12 @@ class ProbeLS(Debiaser):
     def apply_location(self, obs, cm_hist, cm_future, **kw):
         if self.sleep:
             time.sleep(((int(abs(cm_future[0]) * 64)) % 5) * 0.004)
-        if obs[0] == 999:
-            raise RuntimeError("probe failure")
+        _maybe_fail(obs[0])
         return cm_future + (obs.sum() - cm_hist.sum())
 
 class ProbeDC(DeltaChange):
     def apply_location(self, obs, cm_hist, cm_future, **kw):
-        if obs[0] == 999:
-            raise RuntimeError("probe failure")
+        _maybe_fail(obs[0])
         return obs + (cm_future.sum() - cm_hist.sum())
 
 def make_probe(kind, sleep=False):
@@ -39,10 +47,10 @@ def rand_grid(r, T, X, Y, failing=()):
     a = np.array([[[r.randint(-40, 40) / 8 for _ in range(Y)] for _ in range(X)] for _ in range(T)], dtype=float)
     return a
 
-def mark_failing(obs, cells):
+def mark_failing(obs, cells, r=None):
     obs = obs.copy()
     for (i, j) in cells:
-        obs[0, i, j] = 999
+        obs[0, i, j] = 999 if r is None else r.choice(sorted(EXC))
     return obs
 
 def run_apply(d, obs, hist, fut, parallel=False, nr_processes=2, failsafe=False, **kw):
